@@ -693,7 +693,7 @@ func c03CacheKeying(r *core.Report) {
 			}
 			n++
 			co, do := core.ObjOf(info, cs.Call.Args[0]), core.ObjOf(info, cs.Call.Args[1])
-			key := fmt.Sprintf("%s#PutRawCarObject(%s,%s)", f.Key, core.ExprStr(cs.Call.Args[0]), core.ExprStr(cs.Call.Args[1]))
+			key := fmt.Sprintf("%s#PutRawCarObject(%s,%s)", f.Key, core.KeyStr(f, cs.Call.Args[0]), core.KeyStr(f, cs.Call.Args[1]))
 			if co == nil || do == nil {
 				r.Undecided(rule, key, pos(r, cs.Call), "arguments are not plain variables")
 				continue
